@@ -6,7 +6,7 @@ from vlib import sh, HARNESS, read_lines, read_json, run_driver, diff_streams
 BIN = os.path.join(HARNESS, "target", "release")
 
 
-def generic_stream(name, cmd, prefix, prop, ctx, fingerprint_of=None, sample_n=3):
+def generic_stream(name, cmd, prefix, prop, ctx, fingerprint_of=None, sample_n=3, also=None):
     """Run a harness binary that writes <prefix>.ops/.impl/.oracle/.stats, run the driver, diff."""
     for ext in ("ops", "impl", "oracle", "stats", "model"):
         try:
@@ -27,7 +27,8 @@ def generic_stream(name, cmd, prefix, prop, ctx, fingerprint_of=None, sample_n=3
         # the death of the process inside a case of this property's stream counts for this property:
         # whatever the property promises about the operations of that case was not delivered
         # … and so does a fault (a debug assertion or checked unchecked-operation firing inside the library)
-        if parts[0] != prop and not ctx.get("all_props") and not body.startswith("process-abort") and not body.startswith("fault-in-"):
+        if parts[0] != prop and not ctx.get("all_props") and not body.startswith("process-abort") and not body.startswith("fault-in-") \
+                and not (also and also(parts[0], body)):
             continue
         fp = body.split(" :: ")[0] if " :: " in body else (fingerprint_of(body) if fingerprint_of else body[:80])
         res["I"].append({"stream": name, "fingerprint": fp.replace(" ", "_"), "what": body, "ops_file": prefix + ".ops"})
@@ -58,13 +59,19 @@ def stream_keys(ctx):
                           fingerprint_of=lambda b: b.split(":")[0] + ":" + " ".join(b.split(":")[1].split()[:1]) if ":" in b else b[:60])
 
 
-def seq_stream(profile, prop):
+def threaded_lines(tag, body):
+    """Oracle failures of the sequential streams that concern the *concurrent* interner used from one thread (one
+    thread is one of the schedules C03 quantifies over): one key per string, lookups find what was interned."""
+    return tag in ("C01", "C02", "C10") and ("(threaded)" in body or "ThreadedRodeo" in body)
+
+
+def seq_stream(profile, prop, also=None):
     def run(ctx):
         prefix = os.path.join(ctx["work"], f"seq-{profile}-{ctx['seed']}")
         tier = ctx["tier"]
         mult = ctx.get("mult", 1)
         cmd = [os.path.join(BIN, "seq"), "run", profile, tier, str(ctx["seed"]), prefix, str(mult)]
-        r = generic_stream(f"seq:{profile}", cmd, prefix, prop, ctx)
+        r = generic_stream(f"seq:{profile}", cmd, prefix, prop, ctx, also=also)
         return r
     run.__name__ = f"seq_{profile}"
     return run
@@ -401,7 +408,7 @@ PROPS = {
         "assumptions": [],
     },
     "C03": {
-        "streams": [conc_stream("C03"), stress_stream("C03", 3.0)],
+        "streams": [conc_stream("C03"), stress_stream("C03", 3.0), seq_stream("serde", "C03", also=threaded_lines), seq_stream("core", "C03", also=threaded_lines)],
         "trusted_base": ["dashmap: a shard is a hash table behind an RwLock, get/entry/insert take the locks they say (modelled, not verified)",
                          "atomics on a sequentially consistent interleaving at the granularity of the schedule points (every atomic op, lock acquisition and map insert of the interning path has its own point)",
                          "store_str is one step at this granularity (its own interleavings: C05); string contents are stable (C01/C05)",
